@@ -97,7 +97,11 @@ pub fn print_child_stats(st: &xplore::Stats) {
 }
 
 fn run_child(flavor: &str, args: &[String]) -> Result<Value, String> {
-    let child = xplore::report::build_dir(flavor).join("release/zcheck");
+    run_child_bin(flavor, "zcheck", args)
+}
+
+fn run_child_bin(flavor: &str, bin: &str, args: &[String]) -> Result<Value, String> {
+    let child = xplore::report::build_dir(flavor).join("release").join(bin);
     let out = std::process::Command::new(&child).args(args).output().map_err(|e| format!("cannot run {}: {e}", child.display()))?;
     if !out.status.success() {
         return Err(format!("{} {args:?} ended with {:?}: {}", child.display(), out.status, String::from_utf8_lossy(&out.stderr).lines().last().unwrap_or("")));
@@ -114,7 +118,14 @@ fn run_child(flavor: &str, args: &[String]) -> Result<Value, String> {
 /// `phase` (its violations become violations of this run, tagged so that a replay goes back to the
 /// child).  `Err(2)` on a machinery problem.
 pub fn child_phase(rep: &mut xplore::report::Report, flavor: &str, sub: &str, tier: Tier, phase: &str) -> Result<(), i32> {
-    let v = run_child(flavor, &[sub.to_string(), "--tier".into(), tier.name().into()]).map_err(|e| {
+    child_phase_bin(rep, flavor, "zcheck", sub, tier, phase)
+}
+
+/// The same for a phase that another binary of the workspace runs (`bin <sub> --tier t`).  The
+/// child's violations carry their complete replay records, so that a replay can hand them back to
+/// that binary's own `--replay`.
+pub fn child_phase_bin(rep: &mut xplore::report::Report, flavor: &str, bin: &str, sub: &str, tier: Tier, phase: &str) -> Result<(), i32> {
+    let v = run_child_bin(flavor, bin, &[sub.to_string(), "--tier".into(), tier.name().into()]).map_err(|e| {
         eprintln!("MACHINERY: {e}");
         2
     })?;
@@ -125,8 +136,13 @@ pub fn child_phase(rep: &mut xplore::report::Report, flavor: &str, sub: &str, ti
     let trans = v["transitions"].as_u64().unwrap_or(0);
     let goals: Vec<(&'static str, u64)> = v["goals"].as_object().map(|m| m.iter().map(|(k, c)| (&*Box::leak(k.clone().into_boxed_str()), c.as_u64().unwrap_or(0))).collect()).unwrap_or_default();
     let n = evals.max(viol.len() as u64).max(1);
+    if v["caps"].as_array().map_or(false, |a| !a.is_empty()) {
+        eprintln!("MACHINERY: child {bin} {sub} hit a cap: {}", v["caps"]);
+        return Err(2);
+    }
     let sub = sub.to_string();
     let flavor = flavor.to_string();
+    let bin = bin.to_string();
     rep.add(xplore::sweep(phase, n, &xplore::Config { threads: 1, ..Default::default() }, |i, s| {
         if i == 0 {
             for (g, c) in &goals {
@@ -137,7 +153,7 @@ pub fn child_phase(rep: &mut xplore::report::Report, flavor: &str, sub: &str, ti
             s.steps(trans);
         }
         match viol.get(i as usize) {
-            Some(x) => s.fail(x["class"].as_str().unwrap_or("child:violation"), x["detail"].as_str().unwrap_or(""), serde_json::json!({"child": sub, "flavor": flavor, "index": x["index"], "case": x["case"]})),
+            Some(x) => s.fail(x["class"].as_str().unwrap_or("child:violation"), x["detail"].as_str().unwrap_or(""), serde_json::json!({"child": sub, "bin": bin, "flavor": flavor, "index": x["index"], "case": x["case"], "child_replay": x["replay"]})),
             None => {
                 // the child's distinct states / outcomes are carried over by count
                 if i < nstates {
@@ -158,6 +174,27 @@ pub fn replay_child(v: &Value) -> Option<Replayed> {
     let c = &v["case"];
     let sub = c["child"].as_str()?;
     let flavor = c["flavor"].as_str()?;
+    if let (Some(bin), true) = (c["bin"].as_str().filter(|b| *b != "zcheck"), c["child_replay"].is_object()) {
+        // another binary's counterexample: hand the record to that binary's own --replay
+        let dir = xplore::report::build_dir(flavor);
+        let file = dir.join(format!("child-replay-{:08x}.json", xplore::hash_of(&c["child_replay"].to_string()) & 0xffff_ffff));
+        if let Err(e) = std::fs::write(&file, c["child_replay"].to_string()) {
+            return Some(Replayed::Error(format!("cannot write {}: {e}", file.display())));
+        }
+        let exe = dir.join("release").join(bin);
+        let out = match std::process::Command::new(&exe).arg("--replay").arg(&file).output() {
+            Ok(o) => o,
+            Err(e) => return Some(Replayed::Error(format!("cannot run {}: {e}", exe.display()))),
+        };
+        let text = String::from_utf8_lossy(&out.stdout).to_string();
+        let trace: Vec<String> = text.lines().filter(|l| !l.starts_with("VIOLATION ")).map(|l| l.to_string()).collect();
+        let find = |key: &str| text.lines().find_map(|l| l.strip_prefix(key)).unwrap_or("").to_string();
+        return Some(match out.status.code() {
+            Some(0) => Replayed::Pass(trace),
+            Some(1) => Replayed::Fail { trace, class: find("  class: "), detail: find("  detail: ") },
+            other => Replayed::Error(format!("{} --replay ended with {other:?}: {}", exe.display(), String::from_utf8_lossy(&out.stderr).lines().last().unwrap_or(""))),
+        });
+    }
     let idx = c["index"].as_u64()?;
     Some(match run_child(flavor, &[sub.to_string(), "--case".into(), idx.to_string()]) {
         Err(e) => Replayed::Error(e),
